@@ -75,7 +75,7 @@ Result(e) ==
     [] e.ev = "Tick"      -> [s |-> S, res |-> "ok"]
     [] e.ev = "GC"        -> [s |-> GCOp(S, epoch, processed).s, res |-> "ok"]
     [] e.ev = "List"      -> [s |-> S, res |-> "ok"]
-    [] e.ev = "Resync"    -> ResyncOp(S, epoch, e.perm)
+    [] e.ev = "Resync"    -> ResyncOpB(S, epoch, e.perm, e.b)
     \* a blob left behind without metadata (crash between the blob write and the metabase step of a put)
     [] e.ev = "Blob"      -> [s |-> [S EXCEPT !.blob[e.o] = TRUE], res |-> "ok"]
 ExpectedView(s, ep) ==
@@ -152,7 +152,7 @@ TraceNext ==
                 /\ taint' = IF e.ev = "Resync" THEN {} ELSE taint \cup (IF changed # {} THEN explained ELSE {})
                 /\ bad' = IF bad = "none" /\ changed \ explained # {} /\ e.ev # "Resync"
                           THEN ToString(<<"unexplained counter drift at event", l, changed \ explained, d>>)
-                          ELSE IF bad = "none" /\ e.ev = "Resync" /\ d # Zero
+                          ELSE IF bad = "none" /\ e.ev = "Resync" /\ \E f \in Fields \ {"size"} : d[f] # 0   \* size: listed C02 findings (premarked put, tombstone after mark) depend on the order
                           THEN ToString(<<"counters differ from the recount after resync at event", l, d>>) ELSE bad
                 /\ (changed # {} /\ changed \subseteq explained) => PrintT("KF " \o ToString({k.name : k \in kf}))
                 /\ (changed \ explained # {}) =>
